@@ -33,6 +33,10 @@ def run(ctx):
         for pre in (0, 1):
             cases.append({"kind": "hist", "meter": m, "acts": [q4] * pre + [{"op": "set_meter", "count": 0, "unit": 0}] + [q4] * 6 +
                           [{"op": "set_meter", "count": m[0], "unit": m[1]}, q4]})
+    # meters of count 0 with a beat unit (length 0): accepted exactly for power-of-two units, from every starting meter, and back
+    for m in ([2, 4], [4, 4], [0, 0]):
+        for u in (1, 2, 4, 8, 16, 32, 64, 128, 3, 6, 12):
+            cases.append({"kind": "hist", "meter": m, "acts": [{"op": "set_meter", "count": 0, "unit": u}, q4, {"op": "set_meter", "count": 4, "unit": 4}, q4]})
     # notes added to the entry that sounds at a beat, the beat given as a whole number (1 and 2 are beats, not positions)
     for nq in (5, 6, 9):
         for beat in (1, 2):
